@@ -22,7 +22,6 @@ import (
 
 func init() { drivers["portsys"] = runSys }
 
-const loopB = "127.0.9.2"
 
 func respCode(r *msg.NewProxyResp) int {
 	e := r.Error
